@@ -28,8 +28,22 @@ CHECKS = {
                    "is a literal. Behaviour 'according to C03/C13' is those properties.",
         design_ref="DESIGN.md 3/C19",
     ),
+    "C09": dict(
+        category="other",
+        technique="typestate (flush/reset pairing) over enumerated paths, exactly-once call counting per path, symbolic "
+                  "evaluation of the chain composition, concatenation-order rules",
+        text="Decides structural necessary conditions of first-match resolution: on every path of the router builder "
+             "an emitted accumulator is reset; both routers scan from the offset and return index+1; the bus threads "
+             "that offset into the next search and into the mediator, continues only on non-terminal CannotProvide and "
+             "returns the first response; the chaining wrapper consults the wrapped handler and the next provider "
+             "exactly once per path and composes FIRST/LAST in the documented direction; extend() prepends; the full "
+             "recipe is head, instance, class MRO, tail; a retort in a recipe answers from its own recipe.",
+        level_note="Trusted: Python ast. Not decided: equivalence of the optimised router with the linear scan for "
+                   "every provider arrangement (execution-level); predicate semantics (C10).",
+        design_ref="DESIGN.md 3/C09",
+    ),
 }
 
 # properties whose check is still under construction: listed as not claimed until their check exists
 PENDING = {f"C{n:02d}": "check under construction in this round; not claimed until it exists"
-           for n in (2, 3, 5, 6, 7, 8, 9, 10, 11, 12, 13, 14, 15, 18, 20)}
+           for n in (2, 3, 5, 6, 7, 8, 10, 11, 12, 13, 14, 15, 18, 20)}
